@@ -146,7 +146,9 @@ func (c *MJBodyComponent) Render(w io.StringWriter) error {
 		if out == "" {
 			continue
 		}
-		if strings.HasSuffix(held, msoEndif) && strings.HasPrefix(out, msoIf) {
+		// "<!--<![endif]-->" is the end of a not-Outlook block (<!--[if !mso]><!--> … <!--<![endif]-->),
+		// as author HTML in mj-raw may write it: that endif does not close an Outlook conditional
+		if strings.HasSuffix(held, msoEndif) && !strings.HasSuffix(held, "<!--"+msoEndif) && strings.HasPrefix(out, msoIf) {
 			held = held[:len(held)-len(msoEndif)]
 			out = out[len(msoIf):]
 		}
